@@ -20,6 +20,7 @@ From GS.Proofs Require Import BaseLemmas VarintProofs SparseProofs ArithProofs C
   RangeProofs ProtoProofs CompactParseProofs CompactWriterProofs AccountingProofs BlobLayoutProofs
   SubrangeProofs TxRangeProofs LayoutShapeProofs TilingProofs DeconstructProofs
   RefinementProofs1 RefinementProofs2 RefinementProofs3.
+From GS.Proofs Require BuildProofs.
 Import ListNotations.
 Open Scope N_scope.
 
@@ -224,6 +225,22 @@ Proof.
   intros Ht Hmax Hraws H. destruct (build_tiled raws max thr sq kept Ht Hmax Hraws H) as (n & b & _ & T).
   exact (proj1 T).
 Qed.
+
+(* everything C20 says about a constructed square, spelled out: [ws] are the wrapped PFBs
+   as Square.WrappedPFBs reads them from the square, [bs] the blobs in square order *)
+Definition square_sequences (normals : list bytes) (btxs : list blob_tx) (sq : list share) : Prop :=
+  exists ws seqs,
+    wrapped_pfbs sq = Ok ws /\ length ws = length btxs /\
+    parse_shares sq false = Ok seqs /\ concat (map sq_shares seqs) = sq /\ Forall seq_tile_ok seqs /\
+    let bs := square_blobs btxs in
+    parse_shares sq true =
+      Ok (opt_seq normals (mk_seq tx_ns (compact_spec_ix tx_ns 0 normals))
+          ++ opt_seq btxs (mk_seq pfb_ns (compact_spec_ix pfb_ns 0 ws))
+          ++ map (fun b => mk_seq (b_ns b) (blob_spec b)) bs) /\
+    Permutation bs (concat (map btx_blobs btxs)) /\ StronglySorted blob_le bs /\
+    (normals <> [] -> sequence_raw_data (mk_seq tx_ns (compact_spec_ix tx_ns 0 normals)) = Ok (stream normals)) /\
+    (btxs <> [] -> sequence_raw_data (mk_seq pfb_ns (compact_spec_ix pfb_ns 0 ws)) = Ok (stream ws)) /\
+    Forall (fun b => sequence_raw_data (mk_seq (b_ns b) (blob_spec b)) = Ok (b_data b)) bs.
 
 (* ================================================================== *)
 (* C02: Construct then Deconstruct                                     *)
@@ -581,7 +598,7 @@ Lemma assign_Forall_key thr (P : lblob -> Prop) :
   forall l c, Forall P l -> Forall P (assign thr c l).
 Proof.
   intros HP. induction l as [|e l IH]; intros c H; [constructor|]. apply Forall_cons_iff in H as [He H].
-  cbn [assign]. constructor; [|apply IH, H]. exact (HP e _ eq_refl He).
+  cbn [assign]. constructor; [|apply IH, H]. refine (HP e _ _ He). reflexivity.
 Qed.
 
 Lemma assign_sorted_key thr (R : lblob -> lblob -> Prop) :
@@ -721,11 +738,11 @@ Proof.
     destruct (layout_blob_at thr normals btxs Ht Hok Hest e He) as (Hat & Hbok & _ & _). rewrite Hbl in Hat, Hbok.
     destruct (blob_at_window _ _ _ Hat) as [Hwin Hfit].
     pose proof (blob_spec_length b Hbok) as Hlen. fold (blob_share_count b) in Hlen.
-    exists e. repeat split; try assumption.
+    exists e. do 5 (split; [assumption|]). split; [|split; [|split]].
     + unfold idx. rewrite indexes_of_tx_nth.
       replace (Nat.ltb j (length (btx_blobs t))) with true
         by (symmetry; apply Nat.ltb_lt, nth_error_Some; congruence).
-      rewrite Hi. do 2 f_equal. lia.
+      rewrite Hi. reflexivity.
     + rewrite <- Hlen. unfold lenN. rewrite Nat2N.id. exact Hwin.
     + rewrite <- Hlen. exact Hfit.
     + rewrite <- Hn. exact Hmod.
@@ -739,7 +756,7 @@ Lemma placed_from_tx thr normals btxs e : In e (lay_placed thr normals btxs) ->
 Proof.
   intros He. assert (Hin : In (lkey e) (map lkey (lay_placed thr normals btxs))) by (apply in_map, He).
   apply placed_keys in Hin. unfold lkey in Hin. apply all_blobs_keys in Hin.
-  destruct Hin as (i & t & k & Hp & Hj & Ht & Hb). exists i, t, k. repeat split; try assumption. lia.
+  destruct Hin as (i & t & k & Hp & Hj & Ht & Hb). exists i, t, k. split; [lia|]. split; [exact Hj|]. split; assumption.
 Qed.
 
 (* ---- the builder of the raw list, for the queries ---- *)
@@ -760,8 +777,8 @@ Lemma construct_builder raws max thr sq : construct raws max thr = Ok sq ->
   exists b b', new_builder_txs max thr raws = Ok b /\ export b = Ok (b', sq).
 Proof.
   unfold construct. destruct (new_builder_txs max thr raws) as [b| |]; cbn [bind]; try discriminate.
-  destruct (export b) as [[b' sq']| |]; cbn [bind snd]; try discriminate.
-  intros H. injection H as <-. exists b, b'. split; reflexivity.
+  destruct (export b) as [[b' sq']| |] eqn:E; cbn [bind snd]; try discriminate.
+  intros H. injection H as <-. exists b, b'. split; [reflexivity|exact E].
 Qed.
 
 (* BlobShareRange of blob j of the p-th blob transaction = [recorded index, + share count) *)
@@ -822,8 +839,8 @@ Proof.
   split; [intros e He; exact (placed_from_tx thr normals btxs e He)|].
   intros p t Hp. destruct (Hall p t Hp) as (w & idx & Hnw & Hun & Hli & Hblobs).
   exists w, idx. split; [exact Hnw|]. split; [exact Hun|]. split; [exact Hli|].
-  intros j b Hb. destruct (Hblobs j b Hb) as (e & He & Hpf & Hj & Hbl & Hn & Hi & Hwin & Hfit & Hmod).
-  exists e. repeat split; try assumption.
+  intros j bl Hb. destruct (Hblobs j bl Hb) as (e & He & Hpf & Hj & Hbl & Hn & Hi & Hwin & Hfit & Hmod).
+  exists e. do 8 (split; [assumption|]). split; [assumption|].
   pose proof (corr_blob_share_range raws max thr b normals btxs e Ht Hmax Hnb C He) as R.
   rewrite Hpf, Hj, Hn, !nat_N_Z in R. rewrite Nat2Z.inj_add. exact R.
 Qed.
@@ -858,4 +875,401 @@ Proof.
   exists normals, btxs, ws, (lay_placed thr normals btxs).
   split; [exact Hs|]. split; [exact Hw|]. split; [exact Hwl|]. split; [exact Hk|]. split; [exact Hr|].
   split; [intros e He; exact (placed_from_tx thr normals btxs e He)|exact Hall].
+Qed.
+
+(* ================================================================== *)
+(* Build's square is Construct's square of the kept list (C01)          *)
+(* ================================================================== *)
+
+(* so every statement about [construct] above (in particular the two queries, which take a
+   transaction list) applies to the pair (kept, sq) that Build returns *)
+Theorem build_kept_construct raws max thr sq kept : c07_raws_ok raws ->
+  build raws max thr = Ok (sq, kept) ->
+  c07_raws_ok kept /\ construct kept max thr = Ok sq.
+Proof.
+  intros Hraws H.
+  destruct (BuildProofs.build_construct_agree raws max thr sq kept H) as (n & bt & -> & _ & _ & S1 & S2 & Hc).
+  split; [|exact Hc]. unfold c07_raws_ok in *. rewrite Forall_forall in *. intros r Hr. apply Hraws.
+  apply in_app_or in Hr. destruct Hr as [Hr|Hr];
+    [exact (BuildProofs.sublist_In _ _ S1 r Hr)|exact (BuildProofs.sublist_In _ _ S2 r Hr)].
+Qed.
+
+(* ================================================================== *)
+(* C20 spelled out, with the PFB sequence read from the square          *)
+(* ================================================================== *)
+
+Lemma layout_square_sequences thr normals btxs : 1 <= thr -> Forall lay_btx_ok btxs ->
+  estimate thr normals btxs < 2097152 ->
+  square_sequences normals btxs (layout thr normals btxs).
+Proof.
+  intros Ht Hok Hest.
+  destruct (layout_tiling thr normals btxs Ht Hok Hest) as (H1 & H2 & H3).
+  destruct (layout_sequences thr normals btxs Ht Hok Hest) as (H4 & H5 & H6 & _).
+  destruct (layout_payloads thr normals btxs Ht Hok Hest) as (H7 & H8 & H9).
+  exists (wrappers (lay_placed thr normals btxs) 0 btxs), (layout_seqs thr normals btxs).
+  split; [apply layout_wrapped_pfbs; assumption|]. split; [apply wrappers_length|].
+  split; [exact H1|]. split; [exact H2|]. split; [exact H3|]. cbv zeta.
+  split; [exact H4|]. split; [exact H5|]. split; [exact H6|]. split; [exact H7|]. split; [exact H8|exact H9].
+Qed.
+
+Theorem construct_sequences raws max thr sq : 1 <= thr -> (max <= 1024)%Z -> c07_raws_ok raws ->
+  construct raws max thr = Ok sq ->
+  exists normals btxs, split_ordered false raws [] [] = Some (normals, btxs) /\
+    square_sequences normals btxs sq.
+Proof.
+  intros Ht Hmax Hraws H.
+  destruct (construct_ok_inv raws max thr sq Ht Hmax Hraws H) as (normals & btxs & Hs & -> & Hok & _ & _ & Hest).
+  exists normals, btxs. split; [exact Hs|].
+  apply layout_square_sequences; [exact Ht|apply c07_btxs_lay, Hok|exact Hest].
+Qed.
+
+Theorem build_sequences raws max thr sq kept : 1 <= thr -> (max <= 1024)%Z -> c07_raws_ok raws ->
+  build raws max thr = Ok (sq, kept) ->
+  exists normals btxs, keep (Z.to_N max * Z.to_N max) thr raws [] [] [] [] = Some (normals, btxs, kept) /\
+    square_sequences normals btxs sq.
+Proof.
+  intros Ht Hmax Hraws H.
+  destruct (build_ok_inv raws max thr sq kept Ht Hmax Hraws H) as (normals & btxs & Hs & -> & Hok & _ & _ & Hest).
+  exists normals, btxs. split; [exact Hs|].
+  apply layout_square_sequences; [exact Ht|apply c07_btxs_lay, Hok|exact Hest].
+Qed.
+
+(* the hypothesis on the blobs, spelled out *)
+Lemma c07_btx_ok_iff t : c07_btx_ok t <->
+  forall b, In b (btx_blobs t) ->
+    blob_ok b /\ validate_for_blob (b_ns b) = true /\ lenN (b_data b) + signer_len b < 4294967296.
+Proof.
+  unfold c07_btx_ok, c07_blob_ok, lay_blob_ok. rewrite Forall_forall. split.
+  - intros H b Hb. destruct (H b Hb) as [[H1 H2] H3]. split; [exact H1|split; [exact H2|exact H3]].
+  - intros H b Hb. destruct (H b Hb) as (H1 & H2 & H3). split; [split; [exact H1|exact H2]|exact H3].
+Qed.
+
+Lemma c07_raws_ok_iff raws : c07_raws_ok raws <->
+  forall r t b, In r raws -> unmarshal_blob_tx r = UbtOk t -> In b (btx_blobs t) ->
+    blob_ok b /\ validate_for_blob (b_ns b) = true /\ lenN (b_data b) + signer_len b < 4294967296.
+Proof.
+  unfold c07_raws_ok, c07_raw_ok. rewrite Forall_forall. split.
+  - intros H r t b Hr Hu Hb. exact (proj1 (c07_btx_ok_iff t) (H r Hr t Hu) b Hb).
+  - intros H r Hr t Hu. apply c07_btx_ok_iff. intros b Hb. exact (H r t b Hr Hu Hb).
+Qed.
+
+(* ================================================================== *)
+(* C12: transaction share ranges are exact, on the square itself        *)
+(* ================================================================== *)
+Local Open Scope nat_scope.
+
+(* ---- list windows ---- *)
+Lemma nth_error_map_seq {A} (f : nat -> A) n j : j < n -> nth_error (map f (seq 0 n)) j = Some (f j).
+Proof.
+  intros H. apply map_nth_error. rewrite (nth_error_nth' _ 0) by (rewrite seq_length; exact H).
+  rewrite seq_nth by exact H. reflexivity.
+Qed.
+
+Lemma window_app {A} (a m c : list A) lo hi : lo <= hi <= length m ->
+  firstn (hi - lo) (skipn (length a + lo) (a ++ m ++ c)) = firstn (hi - lo) (skipn lo m).
+Proof.
+  intros H. rewrite skipn_app, skipn_all2 by lia. cbn [app].
+  replace (length a + lo - length a) with lo by lia.
+  rewrite skipn_app. replace (lo - length m) with 0 by lia. rewrite skipn_O.
+  rewrite firstn_app, skipn_length. replace (hi - lo - (length m - lo)) with 0 by lia.
+  rewrite firstn_O, app_nil_r. reflexivity.
+Qed.
+
+(* ---- share j of a compact run, byte by byte ---- *)
+Lemma compact_spec_ix_nth ns txs j : j < cneeded (length (stream txs)) ->
+  nth_error (compact_spec_ix ns 0 txs) j =
+  Some (cshare ns 0 (u32 (lenN (stream txs))) j (stream txs) (ustarts 0 (units txs))).
+Proof.
+  intros H. unfold compact_spec_ix. cbv zeta.
+  exact (nth_error_map_seq (fun j => cshare ns 0 (u32 (lenN (stream txs))) j (stream txs) (ustarts 0 (units txs))) _ j H).
+Qed.
+
+Lemma compact_spec_ix_len ns txs : length (compact_spec_ix ns 0 txs) = cneeded (length (stream txs)).
+Proof. unfold compact_spec_ix. cbv zeta. rewrite map_length, seq_length. reflexivity. Qed.
+
+(* stream byte p (inside the payload window of share j) is byte chdr j + (p - coff j) of
+   share j: after the namespace, the info byte, the sequence length (first share only) and
+   the reserved bytes *)
+Lemma cshare_byte ns ver total j s sts p : length ns = 29 -> coff j <= p < coff j + ccap j -> p < length s ->
+  nth_error (cshare ns ver total j s sts) (chdr j + (p - coff j)) = nth_error s p.
+Proof.
+  intros Hns Hp Hl. unfold cshare. rewrite !app_assoc.
+  set (hdr := (((ns ++ [info_of ver (Nat.eqb j 0)]) ++ (if Nat.eqb j 0 then be32 total else []))
+               ++ be32 (N.of_nat (cres j s sts)))).
+  assert (Hh : length hdr = chdr j).
+  { unfold hdr. rewrite !app_length, Hns, length_be32. destruct j; cbn [Nat.eqb length chdr]; [rewrite length_be32|]; lia. }
+  rewrite nth_error_app2 by lia. replace (chdr j + (p - coff j) - length hdr) with (p - coff j) by lia.
+  unfold pad_to. rewrite nth_error_app1 by (rewrite sr_length_cchunk; lia).
+  apply cchunk_nth, Hp.
+Qed.
+
+(* "share base + j of the square holds byte p of the stream s of a compact sequence that
+   starts at share base": p lies in the payload window of the j-th share of the sequence
+   and that byte of that share of the square is byte p of the stream *)
+Definition holds_byte (sq : list share) (base : nat) (s : bytes) (j p : nat) : Prop :=
+  coff j <= p < coff j + ccap j /\ p < length s /\
+  exists sh, nth_error sq (base + j) = Some sh /\ nth_error sh (chdr j + (p - coff j)) = nth_error s p.
+
+(* the shares of a square starting at [base] are the closed-form shares of txs *)
+Definition run_at (sq : list share) (base : nat) (ns : namespace) (txs : list bytes) : Prop :=
+  forall j, j < cneeded (length (stream txs)) ->
+    nth_error sq (base + j) =
+    Some (cshare ns 0 (u32 (lenN (stream txs))) j (stream txs) (ustarts 0 (units txs))).
+
+(* a share of the run holds a byte of unit k iff it is in unit k's range *)
+Lemma run_unit_exact sq base ns txs k t : length ns = 29 -> run_at sq base ns txs ->
+  nth_error txs k = Some t ->
+  forall j, (exists p, ustart txs k <= p < uend txs k /\ holds_byte sq base (stream txs) j p) <->
+            fst (unit_range txs k) <= j < snd (unit_range txs k).
+Proof.
+  intros Hns Hrun Hk j. rewrite <- (unit_range_exact txs k t j Hk). split.
+  - intros (p & Hp & (Hc & _)). exists p. split; assumption.
+  - intros (p & Hp & Hc). exists p. split; [exact Hp|].
+    assert (Hj : fst (unit_range txs k) <= j < snd (unit_range txs k))
+      by (apply (unit_range_exact txs k t j Hk); exists p; split; assumption).
+    destruct (unit_inside_range txs k t Hk) as (_ & _ & _ & [_ Hhi] & Hend).
+    split; [exact Hc|]. split; [lia|]. eexists. split; [apply Hrun; lia|].
+    apply cshare_byte; [exact Hns|exact Hc|lia].
+Qed.
+
+(* ---- the two runs of the layout ---- *)
+Lemma layout_runs thr normals btxs : (1 <= thr)%N -> Forall lay_btx_ok btxs ->
+  (estimate thr normals btxs < 2097152)%N ->
+  let sq := layout thr normals btxs in
+  let ws := wrappers (lay_placed thr normals btxs) 0 btxs in
+  let ntx := cneeded (length (stream normals)) in
+  run_at sq 0 tx_ns normals /\ run_at sq ntx pfb_ns ws /\
+  (forall lo hi, lo <= hi <= ntx -> firstn (hi - lo) (skipn lo sq) = firstn (hi - lo) (skipn lo (compact_spec_ix tx_ns 0 normals))) /\
+  (forall lo hi, lo <= hi <= cneeded (length (stream ws)) ->
+     firstn (hi - lo) (skipn (ntx + lo) sq) = firstn (hi - lo) (skipn lo (compact_spec_ix pfb_ns 0 ws))).
+Proof.
+  intros Ht Hok Hest sq ws ntx. unfold sq. rewrite (layout_split thr normals btxs Ht Hok Hest).
+  unfold tx_run, pfb_run. fold ws.
+  pose proof (compact_spec_ix_len tx_ns normals) as L1. fold ntx in L1.
+  pose proof (compact_spec_ix_len pfb_ns ws) as L2.
+  split; [|split; [|split]].
+  - intros j Hj. cbn [Nat.add]. rewrite nth_error_app1 by (rewrite L1; exact Hj). apply compact_spec_ix_nth, Hj.
+  - intros j Hj. rewrite nth_error_app2 by lia. replace (ntx + j - length (compact_spec_ix tx_ns 0 normals)) with j by lia.
+    rewrite nth_error_app1 by (rewrite L2; exact Hj). apply compact_spec_ix_nth, Hj.
+  - intros lo hi H. apply (window_app [] (compact_spec_ix tx_ns 0 normals) _ lo hi). lia.
+  - intros lo hi H. rewrite <- L1. apply window_app. lia.
+Qed.
+
+(* ---- square.TxShareRange ---- *)
+(* the range of transaction k of the square made of the ordinary transactions [normals]
+   and the wrapped PFBs [ws] *)
+Definition square_tx_range (normals ws : list bytes) (k : nat) : nat * nat :=
+  if Nat.ltb k (length normals) then unit_range normals k
+  else let off := cneeded (length (stream normals)) in
+       let r := unit_range ws (k - length normals) in (off + fst r, off + snd r).
+
+Lemma corr_tx_share_range raws max thr b normals btxs ti : (1 <= thr)%N -> (max <= 1024)%Z ->
+  new_builder_txs max thr raws = Ok b -> corr (Z.to_N max) thr b normals btxs ->
+  tx_share_range raws ti max thr =
+  if ((ti <? 0) || (Z.of_nat (length normals + length btxs) <=? ti))%Z then Err
+  else Ok (zpair (square_tx_range normals (wrappers (lay_placed thr normals btxs) 0 btxs) (Z.to_nat ti))).
+Proof.
+  intros Ht Hmax Hnb C. rewrite tx_share_range_eq, Hnb. cbn [bind].
+  destruct (export_corr_state (Z.to_N max) thr b normals btxs Ht (max_side_small max Hmax) C)
+    as (b' & E & Htx & Hw & Hlen & _ & _).
+  destruct (new_builder_txs_inv _ _ _ _ Hnb) as [(Hdone & _) _].
+  unfold ensure_done. rewrite Hdone, E. cbn [bind fst]. rewrite Htx, Hlen.
+  destruct ((ti <? 0) || (Z.of_nat (length normals + length btxs) <=? ti))%Z; [reflexivity|].
+  unfold builder_tx_range, square_tx_range. rewrite Htx, Hw. reflexivity.
+Qed.
+
+(* the normals Construct collects are members of the input *)
+Lemma split_ordered_incl : forall raws seen normals btxs n' b',
+  split_ordered seen raws normals btxs = Some (n', b') -> forall t, In t n' -> In t normals \/ In t raws.
+Proof.
+  induction raws as [|r tl IH]; intros seen normals btxs n' b' H t Hin; cbn [split_ordered] in H.
+  - injection H as <- _. left. exact Hin.
+  - destruct (classify r) as [raw|raw bt|]; [| |discriminate].
+    + destruct seen; [discriminate|]. destruct (IH _ _ _ _ _ H t Hin) as [Hi|Hi].
+      * apply in_app_or in Hi. destruct Hi as [Hi|[<-|[]]]; [left; exact Hi|right; left; reflexivity].
+      * right. right. exact Hi.
+    + destruct (IH _ _ _ _ _ H t Hin) as [Hi|Hi]; [left; exact Hi|right; right; exact Hi].
+Qed.
+
+(* ---- C12 on the square Construct returns ---- *)
+Theorem construct_tx_ranges raws max thr sq : (1 <= thr)%N -> (max <= 1024)%Z -> c07_raws_ok raws ->
+  construct raws max thr = Ok sq ->
+  exists normals btxs ws,
+    split_ordered false raws [] [] = Some (normals, btxs) /\
+    wrapped_pfbs sq = Ok ws /\ length ws = length btxs /\
+    let ntx := cneeded (length (stream normals)) in
+    (* where the two sequences are in the square *)
+    run_at sq 0 tx_ns normals /\ run_at sq ntx pfb_ns ws /\
+    (* the query, for every index *)
+    (forall ti, tx_share_range raws ti max thr =
+       if ((ti <? 0) || (Z.of_nat (length normals + length btxs) <=? ti))%Z then Err
+       else Ok (zpair (square_tx_range normals ws (Z.to_nat ti)))) /\
+    (* ordinary transaction i *)
+    (forall i t, nth_error normals i = Some t ->
+       let lo := fst (unit_range normals i) in
+       let hi := snd (unit_range normals i) in
+       tx_share_range raws (Z.of_nat i) max thr = Ok (Z.of_nat lo, Z.of_nat hi) /\
+       lo < hi <= ntx /\
+       (forall j, (exists p, ustart normals i <= p < uend normals i /\ holds_byte sq 0 (stream normals) j p)
+                  <-> lo <= j < hi) /\
+       firstn (uend normals i - ustart normals i) (skipn (ustart normals i) (stream normals)) = marshal_delimited t /\
+       (Forall (fun r => r <> []) normals ->
+        exists res, parse_txs (firstn (hi - lo) (skipn lo sq)) = Ok res /\ In t res)) /\
+    (* blob transaction i: its wrapped PFB w as written in the square *)
+    (forall i w, nth_error ws i = Some w ->
+       let lo := fst (unit_range ws i) in
+       let hi := snd (unit_range ws i) in
+       tx_share_range raws (Z.of_nat (length normals + i)) max thr = Ok (Z.of_nat (ntx + lo), Z.of_nat (ntx + hi)) /\
+       lo < hi <= cneeded (length (stream ws)) /\
+       (forall j, (exists p, ustart ws i <= p < uend ws i /\ holds_byte sq ntx (stream ws) j p)
+                  <-> lo <= j < hi) /\
+       firstn (uend ws i - ustart ws i) (skipn (ustart ws i) (stream ws)) = marshal_delimited w /\
+       exists res, parse_txs (firstn (hi - lo) (skipn (ntx + lo) sq)) = Ok res /\ In w res).
+Proof.
+  intros Ht Hmax Hraws H.
+  destruct (construct_ok_inv raws max thr sq Ht Hmax Hraws H) as (normals & btxs & Hs & -> & Hok & _ & _ & Hest).
+  pose proof (c07_btxs_lay _ Hok) as Hlay.
+  destruct (construct_builder raws max thr _ H) as (b & b' & Hnb & _).
+  destruct (new_builder_txs_corr raws max thr b Ht Hraws Hnb) as (n2 & bt2 & Hs2 & C).
+  rewrite Hs in Hs2. injection Hs2 as <- <-.
+  set (ws := wrappers (lay_placed thr normals btxs) 0 btxs).
+  exists normals, btxs, ws.
+  split; [exact Hs|]. split; [apply layout_wrapped_pfbs; assumption|]. split; [apply wrappers_length|].
+  intros ntx. destruct (layout_runs thr normals btxs Ht Hlay Hest) as (R1 & R2 & W1 & W2). fold ws ntx in R2, W1, W2.
+  pose proof (fun ti => corr_tx_share_range raws max thr b normals btxs ti Ht Hmax Hnb C) as Q. fold ws in Q.
+  assert (Hwl : length ws = length btxs) by apply wrappers_length.
+  split; [exact R1|]. split; [exact R2|]. split; [exact Q|]. split.
+  - intros i t Hi lo hi.
+    assert (Hil : i < length normals) by (apply nth_error_Some; congruence).
+    destruct (unit_inside_range normals i t Hi) as (_ & _ & _ & Hr & _). fold lo hi ntx in Hr.
+    split; [|split; [exact Hr|split; [|split]]].
+    + rewrite Q. replace ((Z.of_nat i <? 0) || (Z.of_nat (length normals + length btxs) <=? Z.of_nat i))%Z with false by lia.
+      unfold square_tx_range. rewrite Nat2Z.id. replace (Nat.ltb i (length normals)) with true by lia. reflexivity.
+    + exact (run_unit_exact _ 0 tx_ns normals i t length_tx_ns R1 Hi).
+    + exact (unit_bytes normals i t Hi).
+    + intros Hne. rewrite (W1 lo hi) by lia.
+      exact (unit_parsed_from_range tx_ns normals i t length_tx_ns eq_refl Hne (normals_stream_small thr normals btxs Hest) Hi).
+  - intros i w Hi lo hi.
+    assert (Hil : i < length ws) by (apply nth_error_Some; congruence).
+    destruct (unit_inside_range ws i w Hi) as (_ & _ & _ & Hr & _). fold lo hi in Hr.
+    split; [|split; [exact Hr|split; [|split]]].
+    + rewrite Q.
+      replace ((Z.of_nat (length normals + i) <? 0) || (Z.of_nat (length normals + length btxs) <=? Z.of_nat (length normals + i)))%Z
+        with false by lia.
+      unfold square_tx_range. rewrite Nat2Z.id. replace (Nat.ltb (length normals + i) (length normals)) with false by lia.
+      cbv zeta. replace (length normals + i - length normals) with i by lia. reflexivity.
+    + exact (run_unit_exact _ ntx pfb_ns ws i w length_pfb_ns R2 Hi).
+    + exact (unit_bytes ws i w Hi).
+    + rewrite (W2 lo hi) by lia.
+      exact (unit_parsed_from_range pfb_ns ws i w length_pfb_ns eq_refl (wrappers_nonempty _ _ _)
+               (wrappers_stream_small thr normals btxs Ht Hest) Hi).
+Qed.
+
+(* ================================================================== *)
+(* Non-vacuity: concrete inputs satisfying the hypotheses               *)
+(* ================================================================== *)
+Local Open Scope N_scope.
+
+Lemma c07_btx_of_lay t : lay_btx_ok t ->
+  Forall (fun b => lenN (b_data b) + signer_len b < 4294967296) (btx_blobs t) -> c07_btx_ok t.
+Proof.
+  unfold lay_btx_ok, c07_btx_ok. intros H1 H2. rewrite Forall_forall in *. intros b Hb.
+  split; [apply H1, Hb|apply H2, Hb].
+Qed.
+
+(* C02: the input of Properties/C02.v (two ordinary transactions; a blob transaction with
+   two version 0 blobs, one with a version 1 blob), as raw bytes, maximum side 8, thr 1 *)
+Definition e2e_c02_raws : list bytes := ex_normals ++ map blob_tx_bytes ex_c02_btxs.
+
+Lemma e2e_c02_btxs_c07 : Forall c07_btx_ok ex_c02_btxs.
+Proof.
+  pose proof ex_c02_btxs_ok as H. apply Forall_cons_iff in H as [H1 H]. apply Forall_cons_iff in H as [H2 _].
+  constructor; [|constructor; [|constructor]]; (apply c07_btx_of_lay; [assumption|]); cbn [ex_c02_btxs btx_blobs].
+  - constructor; [vm_compute; reflexivity|]. constructor; [vm_compute; reflexivity|constructor].
+  - constructor; [vm_compute; reflexivity|constructor].
+Qed.
+
+Example e2e_c02_hyps :
+  1 <= 1 /\ (8 <= 1024)%Z /\
+  Forall (fun r => r <> [] /\ unmarshal_blob_tx r = UbtNot) ex_normals /\
+  Forall c07_btx_ok ex_c02_btxs /\
+  Forall (fun t => btx_ok (btx_tx t) (btx_blobs t)) ex_c02_btxs /\
+  Forall (fun t => mock_pfb_decoder (btx_tx t) = Ok (blob_sizes (btx_blobs t))) ex_c02_btxs /\
+  is_ok (construct e2e_c02_raws 8 1) = true.
+Proof.
+  destruct ex_deconstruct_hyps as (_ & _ & _ & _ & H5 & _).
+  split; [lia|]. split; [lia|]. split.
+  { constructor; [split; [discriminate|vm_compute; reflexivity]|].
+    constructor; [split; [discriminate|vm_compute; reflexivity]|constructor]. }
+  split; [exact e2e_c02_btxs_c07|]. split; [exact ex_c02_wire_ok|]. split; [exact H5|].
+  vm_compute. reflexivity.
+Qed.
+
+Example e2e_c02_round_trip :
+  exists sq, construct e2e_c02_raws 8 1 = Ok sq /\ deconstruct mock_pfb_decoder sq = Ok e2e_c02_raws.
+Proof.
+  destruct e2e_c02_hyps as (H1 & H2 & H3 & H4 & H5 & H6 & H7).
+  destruct (construct e2e_c02_raws 8 1) as [sq| |] eqn:E; [|discriminate H7|discriminate H7].
+  exists sq. split; [reflexivity|].
+  exact (construct_deconstruct mock_pfb_decoder 1 8 ex_normals ex_c02_btxs sq H1 H2 H3 H4 H5 H6 E).
+Qed.
+
+(* C03 / C20 / C04: the input of Properties/C07.v: ex_raws = two ordinary transactions, then
+   two blob transactions made by MarshalBlobTx *)
+Lemma e2e_ex_split : split_ordered false ex_raws [] [] = Some (ex_normals, [ex_btx1; ex_btx2]).
+Proof. vm_compute. reflexivity. Qed.
+
+Example e2e_ex_hyps : 1 <= 1 /\ (4 <= 1024)%Z /\ c07_raws_ok ex_raws /\ is_ok (construct ex_raws 4 1) = true /\
+  new_builder_ok 4 = true /\ new_builder_ok 2 = true /\
+  Forall (fun r => unmarshal_blob_tx r <> UbtErr) ex_raws /\ is_ok (build ex_raws 2 64) = true.
+Proof.
+  split; [lia|]. split; [lia|]. split; [exact (proj1 ex_raws_ok)|]. split; [vm_compute; reflexivity|].
+  split; [reflexivity|]. split; [reflexivity|]. split; [|vm_compute; reflexivity].
+  pose proof ex_raws_classified as Hc.
+  assert (G : forall l, Forall (fun c => c <> UbtErr) (map unmarshal_blob_tx l) ->
+              Forall (fun r => unmarshal_blob_tx r <> UbtErr) l) by (intros l; apply Forall_map).
+  apply G. rewrite Hc. repeat constructor; discriminate.
+Qed.
+
+Example e2e_ex_shape :
+  exists sq, construct ex_raws 4 1 = Ok sq /\ square_shape 1 ex_normals [ex_btx1; ex_btx2] 4 sq /\
+             square_tiled 1 ex_normals [ex_btx1; ex_btx2] sq.
+Proof.
+  destruct e2e_ex_hyps as (H1 & H2 & H3 & H4 & _).
+  destruct (construct ex_raws 4 1) as [sq| |] eqn:E; [|discriminate H4|discriminate H4]. exists sq. split; [reflexivity|].
+  destruct (construct_shape ex_raws 4 1 sq H1 H2 H3 E) as (n & b & Hs & S).
+  destruct (construct_tiled ex_raws 4 1 sq H1 H2 H3 E) as (n' & b' & Hs' & T).
+  rewrite e2e_ex_split in Hs, Hs'. injection Hs as <- <-. injection Hs' as <- <-. split; assumption.
+Qed.
+
+(* C06: a history with a refused append: the two ordinary transactions and the two blob
+   transactions fill the 4 x 4 square exactly (estimate 16); a further copy of the second
+   blob transaction is refused *)
+Definition e2e_ops : list aop :=
+  map ATx ex_normals ++ [ABlobTx ex_btx1; ABlobTx ex_btx2; ABlobTx ex_btx2].
+
+Example e2e_ops_ok : 1 <= 1 /\ 4 * 4 < 2097152 /\ Forall aop_ok e2e_ops.
+Proof.
+  split; [lia|]. split; [lia|]. destruct ex_blobs_c07 as [Ha Hb].
+  assert (H1 : c07_btx_ok ex_btx1) by (constructor; [exact Ha|constructor]).
+  assert (H2 : c07_btx_ok ex_btx2) by (constructor; [exact Hb|]; constructor; [exact Ha|constructor]).
+  unfold e2e_ops. cbn [map ex_normals app].
+  constructor; [exact I|]. constructor; [exact I|]. constructor; [exact H1|]. constructor; [exact H2|]. constructor; [exact H2|constructor].
+Qed.
+
+(* C12: the input of Properties/C12.v (transactions ending exactly on share boundaries) *)
+Example e2e_ex12_raws_ok : c07_raws_ok ex12_txs.
+Proof.
+  assert (Hb : c07_blob_ok ex12_blob).
+  { split; [|vm_compute; reflexivity].
+    change ex12_blob with (mk_blob (ex_ns Byte.x01) (repeat Byte.x09 1000) 0 None).
+    apply ex_blob_ok; [discriminate|vm_compute; reflexivity|left; reflexivity]. }
+  assert (Hn : forall r, unmarshal_blob_tx r = UbtNot -> c07_raw_ok r) by (intros r Hr t Hu; congruence).
+  assert (E1 : unmarshal_blob_tx ex12_btx1 = UbtOk (mk_btx (repeat Byte.x0b 460) [ex12_blob])) by (vm_compute; reflexivity).
+  assert (E2 : unmarshal_blob_tx ex12_btx2 = UbtOk (mk_btx [Byte.x0a; Byte.x0b] [ex12_blob; ex12_blob])) by (vm_compute; reflexivity).
+  unfold ex12_txs, ex12_normal. cbn [app].
+  do 5 (constructor; [apply Hn; vm_compute; reflexivity|]).
+  constructor; [|constructor; [|constructor]].
+  - intros t Hu. rewrite E1 in Hu. injection Hu as <-. constructor; [exact Hb|constructor].
+  - intros t Hu. rewrite E2 in Hu. injection Hu as <-. constructor; [exact Hb|]. constructor; [exact Hb|constructor].
 Qed.
